@@ -120,15 +120,17 @@ def hide(x):
 class UFun:
     """An uninterpreted (ghost) function: a z3 UF in VCs; no native meaning."""
 
-    def __init__(self, name, argtypes, rettype):
-        self.name, self.argtypes, self.rettype = name, list(argtypes), rettype
+    def __init__(self, name, argtypes, rettype, native=None):
+        self.name, self.argtypes, self.rettype, self.native = name, list(argtypes), rettype, native
 
     def __call__(self, *a):
+        if self.native is not None:        # used only when a counter-model is replayed natively
+            return self.native(*a)
         raise NotImplementedError(f"ghost function {self.name} has no native evaluation")
 
 
-def ufun(name, argtypes, rettype):
-    return UFun(name, argtypes, rettype)
+def ufun(name, argtypes, rettype, native=None):
+    return UFun(name, argtypes, rettype, native)
 
 
 def in_lang(regex_text, s):
